@@ -55,6 +55,18 @@ def main(tier):
         if j["gen"] == "forest":     # several trees so that zero columns sit in different subtrees
             j["par"] = ",".join(map(str, forests.random_forest(n, rng, chain_bias=0.4, root_prob=0.3)))
         jobs.append(j)
+    # many zero columns spread over several trees, few workers, delays: a worker then meets zero-pivot columns in
+    # decreasing order (a later tree's leaves before an earlier tree's top), the schedule in which "keep the minimum" matters
+    for i in range(24 if quick else 200):
+        j = pipe.random_job(rng, 1000 + i, out, nmax=36, threads=(2, 2, 3, 4), kinds=("forest",))
+        n = rng.randint(10, 36)
+        j["par"] = ",".join(map(str, forests.random_forest(n, rng, chain_bias=0.5, root_prob=0.25)))
+        j.pop("n", None)
+        j["zc"] = ",".join(str(c) for c in sorted(rng.sample(range(n), max(2, n // 3))))
+        j["pert"] = rng.choice([30, 60, 90])
+        j["ps"] = rng.choice([1, 2, 3])
+        j["relax"] = rng.choice([1, 2, 3])
+        jobs.append(j)
 
     def judge(j, cfg, res):
         if res is None:
